@@ -83,3 +83,18 @@ Theorem C05_input_order_irrelevant : forall (P : prog R) (omega : list (list R) 
   = slice_of P ord2 (combine_rows RN (jacobian P tensors ord2) (omega (gram RN (jacobian P tensors ord2)))) i.
 Proof. exact weighted_order_irrelevant. Qed.
 Print Assumptions C05_input_order_irrelevant.
+
+(* ---- mtl_backward's shared parameters with Constant(w) (added): under the cut hypothesis they
+   receive what torch.autograd.backward(losses, grad_tensors = w) computes ---- *)
+From TJ.proofs Require Import EntrySpec C20Proofs C02Proofs C15Proofs EndToEndProofs.
+Theorem C05_mtl_constant : forall (P : prog R) w losses features tasks shared k retain s d' s',
+  wf_prog P -> shared <> [] ->
+  (forall l p, In l losses -> In p shared -> is_cut P [l] features p) ->
+  mtl_backward_model RN P (agg_constant RN w) losses features tasks shared k retain s = (Ok d', s') ->
+  length w = total P losses /\
+  forall p, In p shared ->
+    grad_val s' p = Some (acc_val (grad_val s p)
+      (plain (p_shape P p)
+         (materialize RN P p (ag_value RN P losses (split_by (map (pnumel P) losses) w) p)))).
+Proof. exact mtl_constant_deposit. Qed.
+Print Assumptions C05_mtl_constant.
